@@ -1212,7 +1212,8 @@ func (t *Table) UnmergeCells(row, col int) error {
 			if col < len(t.Rows[i].Cells) {
 				otherCell := &t.Rows[i].Cells[col]
 				if otherCell.Properties != nil && otherCell.Properties.VMerge != nil {
-					if otherCell.Properties.VMerge.Val == "continue" {
+					// Word 写出的延续单元格是不带 w:val 的 <w:vMerge/>，与 val="continue" 含义相同
+					if v := otherCell.Properties.VMerge.Val; v == "continue" || v == "" {
 						// 恢复单元格内容
 						otherCell.Properties.VMerge = nil
 						if len(otherCell.Paragraphs) == 0 {
